@@ -24,6 +24,8 @@ class Ctx:
         # relativize_int: an integer-sorted bound variable is a G-sorted solver variable x guarded by is_int(x) and
         # read through ival(x) (an equivalent reading that lines quantifiers of mixed sorts up for the solver)
         self.relativize_int = relativize_int
+        self.finite_domain = None   # list of G terms: quantifiers over G expand over it (finite-structure checks)
+        self.pred_override = {}     # (name, arity, world) -> callable, e.g. an extent parametrised by Booleans
         self.twin = None   # deliberately wrong reference variants, used only by vacuity twins
         self.G = None
         self._mk_sorts()
@@ -62,6 +64,8 @@ class Ctx:
     # ------------------------------------------------------------ declarations
     def pred(self, name, arity, world=''):
         k = (str(name), arity, world)
+        if k in self.pred_override:
+            return self.pred_override[k]
         if k not in self.preds:
             self.preds[k] = z3.Function('%s/%d%s' % (name, arity, '@' + world if world else ''),
                                         *([self.G] * arity + [z3.BoolSort()]))
@@ -270,13 +274,27 @@ class Ctx:
             return ('exists', tuple(vs), body)
         return ('forall', tuple(vs), ('imp', body, f[2][2]))
 
-    @staticmethod
-    def _quantify(tag, bound, guards, body):
+    def _quantify(self, tag, bound, guards, body):
         if not bound:
             return body
+        if self.finite_domain is not None:
+            return self.expand(tag, bound, z3.Implies(z3.And(*guards), body) if (guards and tag == 'forall')
+                               else (z3.And(*(guards + [body])) if guards else body))
         if tag == 'forall':
             return z3.ForAll(bound, z3.Implies(z3.And(*guards), body) if guards else body)
         return z3.Exists(bound, z3.And(*(guards + [body])) if guards else body)
+
+    def expand(self, tag, bound, body):
+        """Finite-structure reading: G-sorted bound constants range over self.finite_domain."""
+        import itertools as _it
+        gs = [c for c in bound if c.sort() == self.G]
+        rest = [c for c in bound if c.sort() != self.G]
+        if rest:
+            raise ValueError('finite-domain expansion needs G-sorted variables only')
+        insts = []
+        for combo in _it.product(self.finite_domain, repeat=len(gs)):
+            insts.append(z3.substitute(body, *zip(gs, combo)))
+        return z3.And(*insts) if tag == 'forall' else z3.Or(*insts)
 
     def _find_defs(self, units, block):
         """Choose defining equations v = t for variables of the block (acyclic). Preference: right-hand sides
@@ -614,6 +632,8 @@ class Ctx:
             return z3.Implies(z3.And(*body), hd) if body else hd
 
         inner = at('t') if w == 't' else z3.And(at('h'), at('t'))
+        if xs and self.finite_domain is not None:
+            return self.expand('forall', xs, inner)
         return z3.ForAll(xs, inner) if xs else inner
 
 
